@@ -43,6 +43,7 @@ type Controller struct {
 	recorded []Site
 	target   *Site
 	crash    bool
+	onFire   func() // cancel mode: called instead of failing
 	fired    bool
 	// writes counts state-changing sites passed before the fired one (non-triviality)
 	writesBefore int
@@ -75,8 +76,19 @@ func (c *Controller) Arm(target *Site, crash bool) {
 	c.recorded = nil
 	c.target = target
 	c.crash = crash
+	c.onFire = nil
 	c.fired = false
 	c.writesBefore, c.writesSeen = 0, 0
+}
+
+// ArmCancel starts a window in which reaching the target calls fn (typically a
+// context cancel function) and lets the operation continue: "the request was
+// cancelled at this point".
+func (c *Controller) ArmCancel(target *Site, fn func()) {
+	c.Arm(target, false)
+	c.mu.Lock()
+	c.onFire = fn
+	c.mu.Unlock()
 }
 
 // Disarm ends the window and returns the sites passed and whether the target fired.
@@ -109,8 +121,13 @@ func (c *Controller) Hit(name string, isWrite bool) error {
 		c.writesSeen++
 	}
 	crash := c.crash
+	onFire := c.onFire
 	c.mu.Unlock()
 	if fire {
+		if onFire != nil {
+			onFire()
+			return nil
+		}
 		if crash {
 			panic(CrashSentinel{Site: s})
 		}
